@@ -762,7 +762,7 @@ def get_placeholder_value(
                 return tuple(-np.ones(s.shape) for s in agent_space)
             else:
                 # For normal spaces
-                return -np.ones_like(agent_space.shape)
+                return -np.ones(agent_space.shape)
 
 
 def process_transition(
